@@ -1,6 +1,7 @@
 package redisemu
 
 import (
+	"fmt"
 	"strings"
 	"time"
 )
@@ -82,6 +83,10 @@ func fnRestore(ctx *cmdContext, args map[string]any) (output respValue, err erro
 	return
 }
 
+func invalidExpireTime(ctx *cmdContext) any {
+	return respErrorString(fmt.Sprintf("ERR invalid expire time in '%s' command", ctx.cmdName))
+}
+
 func fnExpire(ctx *cmdContext, args map[string]any) (output respValue, err error) {
 	keyName := args["key"].(string)
 	ttl := args["seconds"].(int64)
@@ -90,7 +95,11 @@ func fnExpire(ctx *cmdContext, args map[string]any) (output respValue, err error
 	_, gt := args["condition.gt"]
 	_, lt := args["condition.lt"]
 
-	expiration := time.Now().Add(time.Duration(ttl) * time.Second)
+	expiration, valid := deadlineAfter(time.Now(), ttl, true)
+	if !valid {
+		output.data = invalidExpireTime(ctx)
+		return
+	}
 
 	output = ctx.dsc.expire(keyName, expiration, nx, xx, gt, lt)
 	return
@@ -104,7 +113,11 @@ func fnExpireAt(ctx *cmdContext, args map[string]any) (output respValue, err err
 	_, gt := args["condition.gt"]
 	_, lt := args["condition.lt"]
 
-	expiration := time.Unix(ttl, 0)
+	expiration, valid := deadlineAt(ttl, true)
+	if !valid {
+		output.data = invalidExpireTime(ctx)
+		return
+	}
 
 	output = ctx.dsc.expire(keyName, expiration, nx, xx, gt, lt)
 	return
@@ -129,7 +142,11 @@ func fnPExpire(ctx *cmdContext, args map[string]any) (output respValue, err erro
 	_, gt := args["condition.gt"]
 	_, lt := args["condition.lt"]
 
-	expiration := time.Now().Add(time.Duration(ttl) * time.Millisecond)
+	expiration, valid := deadlineAfter(time.Now(), ttl, false)
+	if !valid {
+		output.data = invalidExpireTime(ctx)
+		return
+	}
 
 	output = ctx.dsc.expire(keyName, expiration, nx, xx, gt, lt)
 	return
@@ -143,7 +160,7 @@ func fnPExpireAt(ctx *cmdContext, args map[string]any) (output respValue, err er
 	_, gt := args["condition.gt"]
 	_, lt := args["condition.lt"]
 
-	expiration := time.UnixMilli(ttl)
+	expiration, _ := deadlineAt(ttl, false)
 
 	output = ctx.dsc.expire(keyName, expiration, nx, xx, gt, lt)
 	return
